@@ -145,11 +145,12 @@ Params(t) ==
     [] t = "clvl" -> << <<"n", FALSE, Val(NoneV)>>, <<"ovs", FALSE, Val(NoneV)>>, <<"path", FALSE, Val(NoneV)>>,
                         <<"default", FALSE, Val(NoneV)>> >>
     [] t = "olvl" -> << <<"n", FALSE, Val(NoneV)>>, <<"plan", FALSE, Val(NoneV)>> >>
+    [] t = "otree" -> << <<"kids", FALSE, Val(NoneV)>>, <<"tag", TRUE, Val(IntV(0))>> >>
     [] t \in {"ctxget", "ctxtree", "probe", "probetree", "ctxget_sh", "ctxmid", "ctxmid_sh"} -> <<>>
 
 \* definition-time options (the @task(...) decorator) that the probes look at
 DefOpts(t) ==
-  CASE t \in {"probe", "olvl"} -> DictV(<< <<StrV("memory"), IntV(1)>>, <<StrV("vcpus"), IntV(1)>> >>)
+  CASE t \in {"probe", "olvl", "otree"} -> DictV(<< <<StrV("memory"), IntV(1)>>, <<StrV("vcpus"), IntV(1)>> >>)
     [] t = "probetree" -> DictV(<< <<StrV("memory"), IntV(5)>> >>)
     [] OTHER -> EmptyDict
 
@@ -213,6 +214,16 @@ Body(t, a, jopts) ==
               IN ListE(<<OptProbe,
                          [Call("olvl", <<Val(IntV(IntOr(a[1]) - 1)), Val(ListV(Tail(a[2].v)))>>)
                             EXCEPT !.opts = items, !.exp = [i \in 1..Len(expo) |-> expo[i][1].v]]>>)
+    \* a tree of jobs: siblings and cousins with private and exported options of the same names
+    [] t = "otree" ->
+         LET kid(step) ==
+               LET plain == DGet(step, StrV("opts")).v
+                   expo == DGet(step, StrV("exp")).v
+               IN [Call("otree", <<Val(DGet(step, StrV("kids"))), Val(DGet(step, StrV("tag")))>>)
+                     EXCEPT !.opts = [i \in 1..Len(plain) |-> <<Val(plain[i][1]), Val(plain[i][2])>>]
+                                     \o [i \in 1..Len(expo) |-> <<Val(expo[i][1]), Val(expo[i][2])>>],
+                            !.exp = [i \in 1..Len(expo) |-> expo[i][1].v]]
+         IN ListE(<<OptProbe>> \o [i \in 1..Len(a[1].v) |-> kid(a[1].v[i])])
     [] t = "probetree" -> ListE(<<OptProbe, Call("probe", <<>>),
                                   [Call("probe", <<>>) EXCEPT !.opts = << <<Val(StrV("vcpus")), Val(IntV(8))>> >>]>>)
 
